@@ -250,4 +250,53 @@ func c28(p *an.Prog, r *an.R, tier string) {
 		}
 	})
 	r.Floor("C28.R2.dispatching-methods", 1, nDispatch)
+	// R4: an engine method called for its effect (statement position) configures that engine only
+	r.Rule("C28.R4", "an engine method called for its effect (statement position: Longest, ...) in package hybridre2 is called on both engines in the same function")
+	nEff := 0
+	p.AllDecls(func(fn *types.Func, d *an.DeclInfo) {
+		if d.Pkg != pkg || d.Decl.Body == nil || strings.HasSuffix(p.Fset.Position(d.Decl.Pos()).Filename, "_test.go") {
+			return
+		}
+		type eff struct {
+			c    *ast.CallExpr
+			eng  string
+			name string
+		}
+		var effs []eff
+		ast.Inspect(d.Decl.Body, func(n ast.Node) bool {
+			es, ok := n.(*ast.ExprStmt)
+			if !ok {
+				return true
+			}
+			c, ok := es.X.(*ast.CallExpr)
+			if !ok {
+				return true
+			}
+			se, ok := ast.Unparen(c.Fun).(*ast.SelectorExpr)
+			if !ok || info.Selections[se] == nil {
+				return true
+			}
+			recv := an.NamedOf(info.Selections[se].Recv())
+			if recv == nil {
+				return true
+			}
+			if e := engineOf(recv.Obj()); e != "" {
+				effs = append(effs, eff{c, e, se.Sel.Name})
+			}
+			return true
+		})
+		for _, x := range effs {
+			mirrored := false
+			for _, y := range effs {
+				if y.name == x.name && y.eng != x.eng && len(y.c.Args) == len(x.c.Args) {
+					mirrored = true
+				}
+			}
+			nEff++
+			r.Check(mirrored, "C28.R4", an.FuncName(fn)+"/"+x.eng+"."+x.name+"/configured-alike", x.c.Pos(), "both engines are configured with "+x.name, "only the "+x.eng+" engine is configured with "+x.name+"(): the two engines then implement different matching semantics and results depend on the threshold")
+		}
+	})
+	if nEff == 0 {
+		r.OK("C28.R4", hyb+"/no-engine-configuration-calls", 0, "no engine method is called in statement position in package hybridre2")
+	}
 }
